@@ -1214,6 +1214,16 @@ class Interp:
             return self.disj([self.equals(k, x, ctx) for k in container.d])
         if isinstance(container, PySet):
             return self.disj([self.equals(k, x, ctx) for k in container.s])
+        if isinstance(container, range) and isz(x) and x.sort() == z3.IntSort():
+            # a symbolic int in a concrete range: start <= x < stop on the step grid (sign of step respected)
+            a, b, st = container.start, container.stop, container.step
+            if len(container) == 0:
+                return False
+            lo, hi = (a, container[-1]) if st > 0 else (container[-1], a)
+            conds = [x >= lo, x <= hi]
+            if abs(st) != 1:
+                conds.append((x - a) % abs(st) == 0)
+            return simp(z3.And(conds))
         for mm in self.method_models:
             r = mm(self, container, "__contains__", [x], {}, ctx)
             if r is not NotImplemented:
